@@ -389,21 +389,23 @@ impl NameCompressor {
             )
             .position(|(a, b)| a != b);
 
-            let Some(suffix_len) = suffix_len else {
+            let suffix_len = match suffix_len {
+                Some(suffix_len) => suffix_len,
+
                 // 'iter::zip()' simply ignores unequal iterators, stopping
                 // when either iterator finishes. Even though the two names
                 // had no mismatching bytes, one could be longer than the
                 // other.
-                if name.len() > entry.len() {
-                    // 'entry' is a proper suffix of 'name'. 'name' can be
-                    // compressed using 'entry', and will have at least one
-                    // more label before it. This label needs to be found and
-                    // hashed.
+                None if name.len() > entry.len() => {
+                    // The bytes of 'entry' are a proper suffix of the bytes
+                    // of 'name'. This does not mean that 'entry' begins on a
+                    // label boundary of 'name': a label of 'name' may itself
+                    // contain bytes that look like a label boundary. Walk
+                    // the labels of 'name' below, like for a partial match.
+                    entry.len()
+                }
 
-                    let rest = &name[..name.len() - entry.len()];
-                    let hash = Self::hash_label(Self::last_label(rest));
-                    return Some((i as u8, rest, hash, pos as u16));
-                } else {
+                None => {
                     // 'name' is a suffix of 'entry'. 'name' can be
                     // compressed using 'entry', and no labels will be left.
                     let rest = &name[..0];
@@ -416,12 +418,13 @@ impl NameCompressor {
             // Walk 'name' until we reach the shared suffix region.
 
             // NOTE:
-            // - 'suffix_len < min(name.len(), entry.len())'.
+            // - 'suffix_len <= entry.len()' and 'suffix_len < name.len()'.
             // - 'name_labels.remaining.len() == name.len()'.
             // - Thus 'suffix_len < name_labels.remaining.len()'.
             // - Thus we can move the first statement of the loop here.
             // SAFETY:
-            // - 'name' and 'entry' have a corresponding but unequal byte.
+            // - 'name' has a byte that is unequal to the corresponding byte
+            //   in 'entry', or is longer than 'entry'.
             // - Thus 'name' has at least one byte.
             // - Thus 'name' has at least one label.
             let mut name_labels = name_labels.clone();
